@@ -57,6 +57,9 @@ pub enum Kind {
     PartialFin,
     /// first byte of a 2-byte type varint, then RESET
     PartialReset,
+    /// first byte of a 2-byte type varint, then nothing: the stream stays open and untyped (the streams
+    /// that arrive after it must still be classified)
+    PartialOpen,
 }
 
 #[derive(Clone, Debug)]
@@ -325,6 +328,10 @@ pub fn execute(case: &Case, seed: u64) -> Outcome {
                         yield_now().await;
                         net.raw_reset(peer, id, 0x10c);
                     }
+                    Kind::PartialOpen => {
+                        net.raw_write(peer, id, &[0x40]);
+                        yield_now().await;
+                    }
                     Kind::Control if !control_written => {
                         control_written = true;
                         let ty = stream_type_bytes(*kind, *form);
@@ -572,6 +579,7 @@ fn kind_from(s: &str) -> Kind {
         "NoneFin" => Kind::NoneFin,
         "NoneReset" => Kind::NoneReset,
         "PartialFin" => Kind::PartialFin,
+        "PartialOpen" => Kind::PartialOpen,
         _ => Kind::PartialReset,
     }
 }
@@ -608,7 +616,7 @@ pub fn run(args: &Args) -> i32 {
     let mut rep = Report::new("C04", args.tier, args.seed, "model_checking");
     rep.exhaustive = true;
     rep.rule = format!(
-        "family A: every control-stream frame sequence of length <= {m} over a 16-item alphabet (two SETTINGS variants, GOAWAY(0/4), CANCEL_PUSH, MAX_PUSH_ID, DATA, HEADERS, PUSH_PROMISE, the four HTTP/2 types, two grease frames, a malformed CANCEL_PUSH), extended while the reference automaton is error-free, x ending (open, FIN, RESET) x role x delivery (whole, per frame, per byte, explored with deviation bound {bound}) x own-side environment (grease off; grease on; grease on with the 4th outgoing stream never granted; the same with own writes accepted one byte at a time). family B: every sequence of <= {} unidirectional streams over 11 kinds x type varint forms 1/2/8, all arrival orders. Oracle: refimpl::h3auto (control automaton, duplicate critical streams) + exactly-once effects of SETTINGS and GOAWAY. Non-trivial = cases with >= 2 control frames or >= 2 streams.",
+        "family A: every control-stream frame sequence of length <= {m} over a 16-item alphabet (two SETTINGS variants, GOAWAY(0/4), CANCEL_PUSH, MAX_PUSH_ID, DATA, HEADERS, PUSH_PROMISE, the four HTTP/2 types, two grease frames, a malformed CANCEL_PUSH), extended while the reference automaton is error-free, x ending (open, FIN, RESET) x role x delivery (whole, per frame, per byte, explored with deviation bound {bound}) x own-side environment (grease off; grease on; grease on with the 4th outgoing stream never granted; the same with own writes accepted one byte at a time). family B: every sequence of <= {} unidirectional streams over 12 kinds (incl. a stream whose type varint stays incomplete while later streams arrive) x type varint forms 1/2/8, all arrival orders. Oracle: refimpl::h3auto (control automaton, duplicate critical streams) + exactly-once effects of SETTINGS and GOAWAY. Non-trivial = cases with >= 2 control frames or >= 2 streams.",
         if thorough { 4 } else { 4 }
     );
     rep.assumptions = vec![
@@ -640,7 +648,7 @@ pub fn run(args: &Args) -> i32 {
         }
     }
     // family B
-    let kinds = [Kind::Control, Kind::Push, Kind::Encoder, Kind::Decoder, Kind::WtUni, Kind::Grease, Kind::Unknown, Kind::NoneFin, Kind::NoneReset, Kind::PartialFin, Kind::PartialReset];
+    let kinds = [Kind::Control, Kind::Push, Kind::Encoder, Kind::Decoder, Kind::WtUni, Kind::Grease, Kind::Unknown, Kind::NoneFin, Kind::NoneReset, Kind::PartialFin, Kind::PartialReset, Kind::PartialOpen];
     let nmax = if thorough { 4 } else { 4 };
     let mut sets: Vec<Vec<Kind>> = vec![vec![]];
     let mut frontier: Vec<Vec<Kind>> = vec![vec![]];
